@@ -11,35 +11,43 @@ open Sigc.Model
 /-! ## rebuilding `R` after equal updates on both sides -/
 
 theorem R.updT {s : St} {t : Spec.LSt} (hR : R s t) (x : List (Nat × Nat)) : R { s with T := x } { t with T := x } :=
-  ⟨rfl, hR.S, hR.G, hR.C, hR.K, hR.sigs, hR.ownedT, hR.ownedK, hR.next, hR.depth, hR.steps, hR.trace, hR.k1, hR.k2⟩
+  ⟨rfl, hR.S, hR.G, hR.C, hR.K, hR.sigs, hR.ownedT, hR.ownedK, hR.ownedG, hR.next, hR.depth, hR.steps, hR.trace, hR.k1, hR.k2⟩
 
 theorem R.updS {s : St} {t : Spec.LSt} (hR : R s t) (x : List (Nat × SlotVar)) : R { s with S := x } { t with S := x } :=
-  ⟨hR.T, rfl, hR.G, hR.C, hR.K, hR.sigs, hR.ownedT, hR.ownedK, hR.next, hR.depth, hR.steps, hR.trace, hR.k1, hR.k2⟩
+  ⟨hR.T, rfl, hR.G, hR.C, hR.K, hR.sigs, hR.ownedT, hR.ownedK, hR.ownedG, hR.next, hR.depth, hR.steps, hR.trace, hR.k1, hR.k2⟩
 
 theorem R.updG {s : St} {t : Spec.LSt} (hR : R s t) (x : List (Nat × Handle)) : R { s with G := x } { t with G := x } :=
-  ⟨hR.T, hR.S, rfl, hR.C, hR.K, hR.sigs, hR.ownedT, hR.ownedK, hR.next, hR.depth, hR.steps, hR.trace, hR.k1, hR.k2⟩
+  ⟨hR.T, hR.S, rfl, hR.C, hR.K, hR.sigs, hR.ownedT, hR.ownedK, hR.ownedG, hR.next, hR.depth, hR.steps, hR.trace, hR.k1, hR.k2⟩
 
 theorem R.updOwnedT {s : St} {t : Spec.LSt} (hR : R s t) (x : List Nat) :
     R { s with ownedT := x } { t with ownedT := x } :=
-  ⟨hR.T, hR.S, hR.G, hR.C, hR.K, hR.sigs, rfl, hR.ownedK, hR.next, hR.depth, hR.steps, hR.trace, hR.k1, hR.k2⟩
+  ⟨hR.T, hR.S, hR.G, hR.C, hR.K, hR.sigs, rfl, hR.ownedK, hR.ownedG, hR.next, hR.depth, hR.steps, hR.trace, hR.k1, hR.k2⟩
 
 theorem R.updC {s : St} {t : Spec.LSt} (hR : R s t) {x y : List (Nat × Option Nat)}
     (h : AR (PtrR t.sigs t.next) x y) : R { s with C := x } { t with C := y } :=
-  ⟨hR.T, hR.S, hR.G, h, hR.K, hR.sigs, hR.ownedT, hR.ownedK, hR.next, hR.depth, hR.steps, hR.trace, hR.k1, hR.k2⟩
+  ⟨hR.T, hR.S, hR.G, h, hR.K, hR.sigs, hR.ownedT, hR.ownedK, hR.ownedG, hR.next, hR.depth, hR.steps, hR.trace, hR.k1, hR.k2⟩
 
 theorem R.updK {s : St} {t : Spec.LSt} (hR : R s t) {x y : List (Nat × Option Nat)}
     (h : AR (PtrR t.sigs t.next) x y) : R { s with K := x } { t with K := y } :=
-  ⟨hR.T, hR.S, hR.G, hR.C, h, hR.sigs, hR.ownedT, hR.ownedK, hR.next, hR.depth, hR.steps, hR.trace, hR.k1, hR.k2⟩
+  ⟨hR.T, hR.S, hR.G, hR.C, h, hR.sigs, hR.ownedT, hR.ownedK, hR.ownedG, hR.next, hR.depth, hR.steps, hR.trace, hR.k1, hR.k2⟩
 
 theorem R.updOwnedK {s : St} {t : Spec.LSt} (hR : R s t) {x y : List (Nat × Option Nat)}
     (h : AR (PtrR t.sigs t.next) x y) : R { s with ownedK := x } { t with ownedK := y } :=
-  ⟨hR.T, hR.S, hR.G, hR.C, hR.K, hR.sigs, hR.ownedT, h, hR.next, hR.depth, hR.steps, hR.trace, hR.k1, hR.k2⟩
+  ⟨hR.T, hR.S, hR.G, hR.C, hR.K, hR.sigs, hR.ownedT, h, hR.ownedG, hR.next, hR.depth, hR.steps, hR.trace, hR.k1, hR.k2⟩
+
+theorem R.updOwnedG' {s : St} {t : Spec.LSt} (hR : R s t) {x y : List (Nat × Nat)} (h : y = x) :
+    R { s with ownedG := x } { t with ownedG := y } :=
+  ⟨hR.T, hR.S, hR.G, hR.C, hR.K, hR.sigs, hR.ownedT, hR.ownedK, h, hR.next, hR.depth, hR.steps, hR.trace, hR.k1, hR.k2⟩
+
+theorem R.updOwnedG {s : St} {t : Spec.LSt} (hR : R s t) (x : List (Nat × Nat)) :
+    R { s with ownedG := x } { t with ownedG := x } :=
+  ⟨hR.T, hR.S, hR.G, hR.C, hR.K, hR.sigs, hR.ownedT, hR.ownedK, rfl, hR.next, hR.depth, hR.steps, hR.trace, hR.k1, hR.k2⟩
 
 /-- allocation of one id on both sides -/
 theorem R.fresh {s : St} {t : Spec.LSt} (hR : R s t) :
     R { s with next := s.next + 1 } { t with next := t.next + 1 } :=
   ⟨hR.T, hR.S, hR.G, ptrs_next (Nat.le_succ _) hR.C, ptrs_next (Nat.le_succ _) hR.K, hR.sigs, hR.ownedT,
-    ptrs_next (Nat.le_succ _) hR.ownedK, by simp [hR.next], hR.depth, hR.steps, hR.trace, hR.k1, hR.k2⟩
+    ptrs_next (Nat.le_succ _) hR.ownedK, hR.ownedG, by simp [hR.next], hR.depth, hR.steps, hR.trace, hR.k1, hR.k2⟩
 
 /-- the same with the specification's counter already rewritten to the model's -/
 theorem R.fresh' {s : St} {t : Spec.LSt} (hR : R s t) :
@@ -97,14 +105,32 @@ theorem mkFun_sim_err {s : St} {t : Spec.LSt} (hR : R s t) (v : Bool) (spec : FS
       · simp at h
   | fwd g =>
     simp only [Model.mkFun] at h
-    simp only [Spec.mkFun, hR.G]
+    simp only [Spec.mkFun, hR.G, hR.ownedG]
     split at h
     · rename_i h1; simp only [h1]; simpa using h
     · rename_i v0 h1
       simp only [h1]
       split at h
       · rename_i h2; simp only [h2, if_true]; simpa using h
-      · simp at h
+      · rename_i h2
+        simp only [h2]
+        split at h
+        · rename_i h3; simp only [h3, if_true]; simpa using h
+        · simp at h
+  | ownG fid g =>
+    simp only [Model.mkFun] at h
+    simp only [Spec.mkFun, hR.G, hR.ownedG]
+    split at h
+    · rename_i h1; simp only [h1]; simpa using h
+    · rename_i v0 h1
+      simp only [h1]
+      split at h
+      · rename_i h2; simp only [h2, if_true]; simpa using h
+      · rename_i h2
+        simp only [h2]
+        split at h
+        · rename_i h3; simp only [h3, if_true]; simpa using h
+        · simp [St.fresh] at h
   | bad => simp only [Model.mkFun] at h; simp only [Spec.mkFun]; simpa using h
 
 theorem mkFun_sim_ok {s : St} {t : Spec.LSt} (hR : R s t) (v : Bool) (spec : FSpec) {fn : Fun} {s' : St}
@@ -189,8 +215,36 @@ theorem mkFun_sim_ok {s : St} {t : Spec.LSt} (hR : R s t) (v : Bool) (spec : FSp
       · simp at h
       · rename_i h2
         simp only [h2]
-        simp at h; obtain ⟨rfl, rfl⟩ := h
-        exact ⟨_, rfl, hR.updG _⟩
+        split at h
+        · simp at h
+        · rename_i h3
+          rw [← hR.ownedG] at h3
+          simp only [h3]
+          simp at h; obtain ⟨rfl, rfl⟩ := h
+          exact ⟨_, rfl, hR.updG _⟩
+  | ownG fid g =>
+    simp only [Model.mkFun] at h
+    simp only [Spec.mkFun, hR.G, hR.ownedG]
+    split at h
+    · simp at h
+    · rename_i v0 h1
+      simp only [h1]
+      split at h
+      · simp at h
+      · rename_i h2
+        simp only [h2]
+        split at h
+        · simp at h
+        · rename_i h3
+          simp only [h3]
+          simp only [St.fresh] at h
+          simp only [Spec.LSt.fresh, hR.next]
+          simp at h; obtain ⟨rfl, rfl⟩ := h
+          refine ⟨_, rfl, ?_⟩
+          have := hR.fresh.updOwnedG' (x := (s.next, g) :: s.ownedG) (y := (s.next, g) :: t.ownedG)
+            (by rw [hR.ownedG])
+          rw [hR.next] at this
+          exact this
   | bad => simp [Model.mkFun] at h
 
 
